@@ -27,9 +27,11 @@ Print Assumptions C18_offsets_exact.
 (* (2) The strict checker accepts the file written for every well-formed input.
    FULL statement wanted: forall i, check_file (layout i) = true for every input the writer can be
    given.  Proved under [wf]: besides field-width bounds, [wf] asks that the cross-reference CONTENTS
-   are sane (object 0 first and free, distinct object numbers, /Size = highest number + 1, free
+   are sane (each object's table generation = its header generation, object 0 first and free,
+   distinct object numbers, /Size = highest number + 1, free
    entries chained from object 0 with generation 65535).  pdfcpu does NOT always establish the last
-   two (see C18_size_refuted and the harness classes size-too-large / free-list-unlinked), hence
+   two, nor the generation equality (see C18_size_refuted, C18_generation_refuted and the harness classes
+   size-too-large / free-list-unlinked / inuse-generation), hence
    the name _partial: what is missing is a proof that xRefTable.Size and the free list handed to the
    writer satisfy [table_ok] — on real documents they sometimes do not. *)
 Theorem C18_layout_checks_partial : forall i : input, wf i -> check_file (layout i) = true.
